@@ -218,7 +218,16 @@ class Run:
                 if f.startswith("race."):
                     os.remove(os.path.join(outdir, f))
             env["GORACE"] = f"log_path={outdir}/race halt_on_error=0"
-        rc, out = sh(cmd, to, cwd=outdir, env=env, logf=self.log)
+        # the implementation under test leaves temporary stores behind: keep them in a
+        # private directory that goes away with the run
+        tmpd = f"{outdir}/tmp"
+        shutil.rmtree(tmpd, ignore_errors=True)
+        os.makedirs(tmpd, exist_ok=True)
+        env["TMPDIR"] = tmpd
+        try:
+            rc, out = sh(cmd, to, cwd=outdir, env=env, logf=self.log)
+        finally:
+            shutil.rmtree(tmpd, ignore_errors=True)
         return rc, out
 
     # ---- step 4: judge inside Coq
